@@ -49,6 +49,7 @@ structure St where
   primDurable : Slots := []       -- primary content as of the last sync
   acked : Nat := 0                -- number of acknowledged flushes
   applied : List Cmd := []        -- ghost: every primary write performed so far, in order
+  appliedAtSync : Nat := 0        -- ghost: how many of them the last sync(2) made durable
 deriving Repr
 
 /-- writer bookkeeping carried between events: next TG id, lastCommittedTGID -/
@@ -85,7 +86,7 @@ def exec (s : St) : Effect → St
   | .walAppend r => { s with wal := s.wal ++ [r] }
   | .walFsync => { s with walDurable := s.wal }
   | .prim c => { s with prim := s.prim.put (c.year, c.index) c.payload, applied := s.applied ++ [c] }
-  | .sync => { s with walDurable := s.wal, primDurable := s.prim }
+  | .sync => { s with walDurable := s.wal, primDurable := s.prim, appliedAtSync := s.applied.length }
   | .walTruncate => { s with wal := [] }
   | .ack => { s with acked := s.acked + 1 }
 
